@@ -14,3 +14,24 @@ void rm_negacyclic_mul_i128(uint64_t n, i128* res, const int64_t* a, const int64
     for (uint64_t j = n - i; j < n; ++j) res[i + j - n] -= ai * b[j];
   }
 }
+
+// max_i |res[i] - (a*b)[i]| over Z[X]/(X^n+1), exact (|a|,|b| < 2^50 and result < 2^127 guaranteed by caller)
+// out[0] = low 64 bits of the maximum, out[1] = high 64 bits, out[2] = index where it occurs
+void rm_product_maxdiff(uint64_t n, const int64_t* a, const int64_t* b, const int64_t* res, uint64_t* out) {
+  unsigned __int128 best = 0;
+  uint64_t besti = 0;
+  for (uint64_t k = 0; k < n; ++k) {
+    i128 acc = 0;
+    for (uint64_t i = 0; i <= k; ++i) acc += (i128)a[i] * b[k - i];
+    for (uint64_t i = k + 1; i < n; ++i) acc -= (i128)a[i] * b[n + k - i];
+    i128 d = (i128)res[k] - acc;
+    unsigned __int128 ad = d < 0 ? (unsigned __int128)(-d) : (unsigned __int128)d;
+    if (ad > best) {
+      best = ad;
+      besti = k;
+    }
+  }
+  out[0] = (uint64_t)best;
+  out[1] = (uint64_t)(best >> 64);
+  out[2] = besti;
+}
